@@ -17,18 +17,24 @@
 (*   FreeIsEmpty a free inode that is not half-freed owns nothing                      *)
 (* Negative controls (the repaired defects): KeepSsz = FALSE (ShrinkSize reset while   *)
 (* a shrink is pending), UseResult = FALSE (the result of an in-transaction Shrink     *)
-(* that stopped at the transaction boundary ignored).                                  *)
+(* that stopped at the transaction boundary ignored), Slack = 1 (getShrink takes a file  *)
+(* with one block still to be freed for "not being freed": C12, NoStale).               *)
+(*   NoStale     a block that was cut off by a truncation and is not freed yet never     *)
+(*               lies below the size again: growing the file cannot re-expose old data    *)
 EXTENDS Integers, FiniteSets, TLC
-CONSTANTS MaxB, K, Budget, KeepSsz, UseResult, MaxOps    \* MaxOps = 0: no bound on the number of operations (the whole reachable space)
+CONSTANTS MaxB, K, Budget, KeepSsz, UseResult, MaxOps, Slack    \* MaxOps = 0: no bound on the number of operations (the whole reachable space)
 (* K: what Resize estimates to fit in its transaction (shrinkFits(oldsz-newSz)); Budget <= K: what one transaction   *)
 (* really frees (every freed block also dirties bitmap and index blocks, and Shrink re-checks the room per block).   *)
 
-VARIABLES kind, sz, ssz, map, shq, crashed, nops
-vars == <<kind, sz, ssz, map, shq, crashed, nops>>
+VARIABLES kind, sz, ssz, map, shq, crashed, nops,
+          stale      \* history: blocks cut off by a truncation (index >= the size set) that still hold their old content
+vars == <<kind, sz, ssz, map, shq, crashed, nops, stale>>
 Max(a, b) == IF a > b THEN a ELSE b
 Pending == ssz > sz
+Seen == ssz > sz + Slack       \* what getShrink takes for "still being freed" (IsShrinking; Slack = 0 in the code)
+Cut(n) == {i \in map : i >= n}
 
-Init == kind = "file" /\ sz = 0 /\ ssz = 0 /\ map = {} /\ shq = FALSE /\ crashed = FALSE /\ nops = 0
+Init == kind = "file" /\ sz = 0 /\ ssz = 0 /\ map = {} /\ shq = FALSE /\ crashed = FALSE /\ nops = 0 /\ stale = {}
 
 (* Shrink(): free from the top while the transaction has room; returns the new state *)
 RECURSIVE DoShrink(_, _, _, _)
@@ -48,33 +54,36 @@ Resize(n) ==
 
 (* getShrink: WRITE / SETATTR complete a pending shrink in transactions of their own first *)
 Help ==
-  /\ kind = "file" /\ Pending /\ (MaxOps = 0 \/ nops < MaxOps)
+  /\ kind = "file" /\ Seen /\ (MaxOps = 0 \/ nops < MaxOps)
   /\ LET r == DoShrink(sz, ssz, map, Budget) IN ssz' = r[1] /\ map' = r[2]
   /\ crashed' = (crashed /\ ssz' > sz) /\ nops' = (IF MaxOps = 0 THEN nops ELSE nops + 1)
-  /\ UNCHANGED <<kind, sz, shq>>
+  /\ stale' = stale \cap map' /\ UNCHANGED <<kind, sz, shq>>
 Write(i) ==
-  /\ kind = "file" /\ ~Pending /\ (MaxOps = 0 \/ nops < MaxOps)
+  /\ kind = "file" /\ ~Seen /\ (MaxOps = 0 \/ nops < MaxOps)
   /\ map' = map \cup {i} /\ sz' = Max(sz, i + 1) /\ nops' = (IF MaxOps = 0 THEN nops ELSE nops + 1)
-  /\ UNCHANGED <<kind, ssz, shq, crashed>>
+  /\ UNCHANGED <<kind, ssz, shq, crashed, stale>>        \* a write may cover part of a block only: what is stale stays stale
 Setattr(n) ==
-  /\ kind = "file" /\ ~Pending /\ n # sz /\ (MaxOps = 0 \/ nops < MaxOps)
+  /\ kind = "file" /\ ~Seen /\ n # sz /\ (MaxOps = 0 \/ nops < MaxOps)
   /\ LET r == Resize(n) IN sz' = r[1] /\ ssz' = r[2] /\ map' = r[3] /\ shq' = (shq \/ r[4])
+  /\ stale' = (stale \cup Cut(n)) \cap map'
   /\ nops' = (IF MaxOps = 0 THEN nops ELSE nops + 1) /\ UNCHANGED <<kind, crashed>>
 Remove ==      \* doDecLink: Resize(0) and free the inode, whatever state it is in
   /\ kind = "file" /\ (MaxOps = 0 \/ nops < MaxOps)
   /\ LET r == Resize(0) IN sz' = r[1] /\ ssz' = r[2] /\ map' = r[3] /\ shq' = (shq \/ r[4])
+  /\ stale' = (stale \cup Cut(0)) \cap map'
   /\ kind' = "free" /\ nops' = (IF MaxOps = 0 THEN nops ELSE nops + 1) /\ UNCHANGED crashed
 Alloc ==       \* getAlloc: a half-freed number is first shrunk completely (DoShrink), then initialised
   /\ kind = "free" /\ (MaxOps = 0 \/ nops < MaxOps)
   /\ IF Pending THEN LET r == DoShrink(sz, ssz, map, Budget) IN ssz' = r[1] /\ map' = r[2] /\ UNCHANGED <<kind, sz>>
      ELSE kind' = "file" /\ sz' = 0 /\ ssz' = 0 /\ UNCHANGED map
   /\ crashed' = (crashed /\ ssz' > sz') /\ nops' = (IF MaxOps = 0 THEN nops ELSE nops + 1) /\ UNCHANGED shq
+  /\ stale' = stale \cap map'
 Shrinker ==    \* one transaction of the background thread
   /\ shq
   /\ LET r == DoShrink(sz, ssz, map, Budget) IN ssz' = r[1] /\ map' = r[2] /\ shq' = (r[1] > sz)
-  /\ UNCHANGED <<kind, sz, crashed, nops>>
+  /\ stale' = stale \cap map' /\ UNCHANGED <<kind, sz, crashed, nops>>
 Crash ==       \* the shrinker thread is gone; the inode on disk is what the last transaction left
-  /\ shq /\ shq' = FALSE /\ crashed' = Pending /\ UNCHANGED <<kind, sz, ssz, map, nops>>
+  /\ shq /\ shq' = FALSE /\ crashed' = Pending /\ UNCHANGED <<kind, sz, ssz, map, nops, stale>>
 
 Next == Help \/ (\E i \in 0..(MaxB - 1) : Write(i)) \/ (\E n \in 0..MaxB : Setattr(n)) \/ Remove \/ Alloc \/ Shrinker \/ Crash
 Spec == Init /\ [][Next]_vars
@@ -83,5 +92,6 @@ NoOrphan == \A i \in map : i < Max(sz, ssz)
 Reclaimed == /\ (~Pending => \A i \in map : i < sz)
              /\ (Pending => shq \/ crashed)
 FreeIsEmpty == (kind = "free" /\ ~Pending) => map = {}
+NoStale == kind = "file" => \A i \in stale : i >= sz
 TypeOK == sz \in 0..MaxB /\ ssz \in 0..MaxB /\ map \subseteq 0..(MaxB - 1)
 =============================================================================
